@@ -38,6 +38,8 @@ CHECKS = {
          "Held on generated load/load-from-document/render/remove/clear sequences with inheritance chains and siblings, and on concurrent histories of 2-8 goroutines on one engine; linearizability decided per history with a timeout (timeout = inconclusive)."),
  "C18": ("exploration", "reference substitution on the independently read base document compared with the independently read rendered document: per-paragraph text, per-character run formatting of literal characters, w:pPr, break runs, body sequence, w:sectPr, loop table rows, header/footer text, pictures, untouched parts", "4/C18",
          "Held on generated base documents with placeholders cut at forced positions across 1-4 formatted runs in body, cells, nested tables, headers and footers (incl. packages with split header placeholders that are opened first), loop tables, image placeholders and hostile values."),
+ "C03": ("exploration", "round-trip differential: public in-memory model before save vs after Open, canonical main part of the first save vs the save after reopening (structured diff keyed by element path), and stability over further open/save cycles", "3.2, 4/C03",
+         "Held on API-built documents from the operation-script generator with a covering part in which each of 16 operation families dominates; differences are reported per element path, three recorded reader losses (TOC content control, formulas) are listed as known findings."),
 }
 PENDING = {}
 ALL = ["C%02d" % i for i in range(1, 21)]
